@@ -26,6 +26,10 @@ def gen_history(rng, p_call=0.12):
             m = rng.choice(NAMES[:5] + [b"nope"]) + b"." + rng.choice(CALL_METHODS)
             ops.append("call %s" % S.hx(m))
             hist.append(("call", m))
+        elif r < 0.06:
+            name, descr = rng.choice(NAMES), rng.choice(TEXTS[:6])
+            ops.append("reg2 %s %s" % (S.hx(name), S.hx(descr)))
+            hist.append(("reg2", name, descr))
         elif r < 0.4:
             name, descr = rng.choice(NAMES), rng.choice(TEXTS + [b"interface a.b\nmethod M() -> ()"])
             ops.append("reg %s %s" % (S.hx(name), S.hx(descr)))
@@ -66,6 +70,15 @@ def spec(ident, hist, results):
             if want == "o":
                 names.append(name)
                 descrs[name] = descr
+        elif op[0] == "reg2":
+            _, name, descr = op
+            want = "xx" if (name in names or listening) else "ox"
+            if res != want:
+                return "two concurrent registrations of %r while %s: got %s, expected %s (exactly one may succeed, none while listening / when taken)" % (
+                    name, "listening" if listening else "stopped", res, want)
+            if want == "ox":
+                names.append(name)
+                descrs[name] = descr
         elif op[0] in ("listen", "listen2"):
             listening = True
         elif op[0] in ("shutdown", "drop"):
@@ -75,6 +88,8 @@ def spec(ident, hist, results):
                 return "Shutdown with an open connection: the serving call must keep draining, got %s" % res
         elif op[0] == "info":
             f = res.split(" ")
+            if f[1].startswith("X"):
+                return "GetInfo was not answered: the service reported %s" % f[1][1:200]
             fr = bytes.fromhex(f[1])
             if not all(C.utf8(x) for x in ident + names):
                 continue
@@ -93,6 +108,8 @@ def spec(ident, hist, results):
             m = op[1]
             if not C.utf8(m):
                 continue
+            if res.split(" ")[1].startswith("X"):
+                return "the call %r was not answered: the service reported %s" % (m, res.split(" ", 1)[1][1:200])
             fr = bytes.fromhex(res.split(" ")[1])
             obj = C.frame_obj(fr[:-1]) if fr.endswith(b"\x00") else "no-frame"
             rt = S.route_py(names[1:], m)
@@ -102,6 +119,8 @@ def spec(ident, hist, results):
         elif op[0] == "descr":
             name = op[1]
             f = res.split(" ")
+            if f[1].startswith("X"):
+                return "GetInterfaceDescription(%r) was not answered: the service reported %s" % (name, res.split(" ", 1)[1][1:200])
             fr = bytes.fromhex(f[1])
             if not C.utf8(name):
                 continue
@@ -141,7 +160,7 @@ def resolver_case(rng):
 
 def main(pid, argv):
     ck = V.Check(pid, argv)
-    ck.rule = ("histories over {register(name, description), duplicate register, listen, register while listening (incl. while a stopped service still drains an open connection), shutdown, register again, listen again through Listen or Bind+DoListen, GetInfo, "
+    ck.rule = ("histories over {register(name, description), duplicate register, two concurrent registrations of one name, listen, register while listening (incl. while a stopped service still drains an open connection), shutdown, register again, listen again through Listen or Bind+DoListen, GetInfo, "
                "GetInterfaceDescription(name), call(method string) before and after registrations} on one real Service object with identity strings and descriptions from a pool (empty, unicode, control characters, "
                "quotes, long, invalid UTF-8); replies observed through HandleMessage directly and, while listening, through the client helpers; plus Resolver.GetInfo / "
                "Resolver.Resolve against a scripted resolver service. distinct = distinct histories; non-trivial = history with a refused registration or a description query")
